@@ -1,11 +1,21 @@
 use crate::error::Converter;
 use crate::{DateTime, Error, Result, Transform};
 use roxmltree::Node;
+use std::borrow::Borrow;
 use std::fmt::Display;
 use std::str::FromStr;
 
+/// Checks if a node is an element with the given local name in the namespace of the E57 standard,
+/// which is the namespace of the root element of the document.
+/// Elements from any other namespace belong to extensions, even if they use the name of a standard element.
+pub fn is_tag<'a, 'input: 'a>(node: impl Borrow<Node<'a, 'input>>, tag_name: &str) -> bool {
+    let node = node.borrow();
+    let standard_namespace = node.document().root_element().tag_name().namespace();
+    node.has_tag_name(tag_name) && node.tag_name().namespace() == standard_namespace
+}
+
 pub fn opt_string(parent_node: &Node, tag_name: &str) -> Result<Option<String>> {
-    if let Some(tag) = parent_node.children().find(|n| n.has_tag_name(tag_name)) {
+    if let Some(tag) = parent_node.children().find(|n| is_tag(n, tag_name)) {
         let expected_type = "String";
         if let Some(found_type) = tag.attribute("type") {
             if found_type != expected_type {
@@ -33,7 +43,7 @@ fn opt_num<T: FromStr + Sync + Send>(
     tag_name: &str,
     expected_type: &str,
 ) -> Result<Option<T>> {
-    if let Some(tag) = parent_node.children().find(|n| n.has_tag_name(tag_name)) {
+    if let Some(tag) = parent_node.children().find(|n| is_tag(n, tag_name)) {
         if let Some(found_type) = tag.attribute("type") {
             if found_type != expected_type {
                 Error::invalid(format!(
@@ -75,7 +85,7 @@ pub fn req_int<T: FromStr + Send + Sync>(parent_node: &Node, tag_name: &str) -> 
 }
 
 pub fn opt_date_time(parent_node: &Node, tag_name: &str) -> Result<Option<DateTime>> {
-    if let Some(tag) = parent_node.children().find(|n| n.has_tag_name(tag_name)) {
+    if let Some(tag) = parent_node.children().find(|n| is_tag(n, tag_name)) {
         let expected_type = "Structure";
         if let Some(found_type) = tag.attribute("type") {
             if found_type != expected_type {
@@ -93,7 +103,7 @@ pub fn opt_date_time(parent_node: &Node, tag_name: &str) -> Result<Option<DateTi
 }
 
 pub fn opt_transform(parent_node: &Node, tag_name: &str) -> Result<Option<Transform>> {
-    let node = parent_node.children().find(|n| n.has_tag_name(tag_name));
+    let node = parent_node.children().find(|n| is_tag(n, tag_name));
     if let Some(node) = node {
         Ok(Some(Transform::from_node(&node)?))
     } else {
